@@ -25,10 +25,13 @@ Definition views_of (hs : list hop) : list cview :=
 Definition run_history (inp : list Z) : list Z :=
   flat_map enc_cview (views_of (dec_history inp)).
 
-(* hypotheses evaluated along the model's run, per entry point:
-   node names stable so far (clauses 3, 4, 6); Some L while every delivered pod object was recorded
-   consistently so far, L = the delivered objects, newest first (clause 9) *)
-Notation flag := (bool * option (list preq))%type.
+(* hypotheses and reference figures recomputed from the history, per entry point *)
+Record flag := mkFlag {
+  f_stable : bool;                  (* node names stable so far (clauses 3, 4, 6, 14) *)
+  f_last : option (list preq);      (* clause 9 *)
+  f_specs : list rspec;             (* reservation objects delivered so far, newest first (12, 13) *)
+  f_dead : dead                     (* reported deleted, not delivered again since (14) *)
+}.
 
 Definition next_last (c : cache) (l : list cop) (last : option (list preq)) : option (list preq) :=
   match last with
@@ -36,15 +39,18 @@ Definition next_last (c : cache) (l : list cop) (last : option (list preq)) : op
   | None => None
   end.
 
-Fixpoint flags (c : cache) (st : bool) (last : option (list preq)) (hs : list hop) : list flag :=
+Definition next_flag (c : cache) (h : hop) (f : flag) : flag :=
+  mkFlag (f_stable f && all_along node_stable_op c (lower c h) && hop_stable c h)
+         (next_last c (lower c h) (f_last f))
+         (deliver_specs (f_specs f) (lower c h))
+         (next_dead c h (f_dead f)).
+Fixpoint flags (c : cache) (f : flag) (hs : list hop) : list flag :=
   match hs with
   | [] => []
-  | h :: t =>
-    let st' := st && all_along node_stable_op c (lower c h) in
-    let last' := next_last c (lower c h) last in
-    (st', last') :: flags (hstep c h) st' last' t
+  | h :: t => let f' := next_flag c h f in f' :: flags (hstep c h) f' t
   end.
-Definition flags_of (hs : list hop) := flags init_cache true (Some []) hs.
+Definition flag0 : flag := mkFlag true (Some []) [] [].
+Definition flags_of (hs : list hop) := flags init_cache flag0 hs.
 
 Definition dec_views (n : nat) (obs : list Z) : list cview := fst (decode_many dec_cview n obs).
 
@@ -69,7 +75,7 @@ Definition claim_ok (cl : option (Z * Z)) (o : cview) : bool :=
 Definition step_code (cl : option (Z * Z)) (h : hop) (f : flag) (prev : list iview) (v : cview) : Z :=
   let s := sched_code h prev (o_infos v) in
   if negb (s =? 0) then s
-  else let c := prop_view (fst f) (snd f) v in
+  else let c := prop_view (f_stable f) (f_last f) (f_specs f) (f_dead f) v in
        if c =? 0 then (if claim_ok cl v then 0 else 8) else c.
 
 (* claims are computed along the model's run *)
